@@ -21,11 +21,24 @@ TOL = 2.0 ** -18
 
 
 class Leaf:
-    def __init__(self, name, shape, domain="any", requires_grad=True):
+    def __init__(self, name, shape, domain="any", requires_grad=True, layout="C"):
         self.name = name
         self.shape = tuple(shape)
         self.domain = domain            # any | pos | unit | nonzero | (lo, hi) open interval
         self.requires_grad = requires_grad
+        self.layout = layout            # memory layout of the operand's array: C | F (Fortran order) | strided (view of a larger buffer)
+
+
+def lay(arr, layout):
+    """same values, different memory layout -- no operation's result may depend on it"""
+    if layout == "F" and arr.ndim >= 2:
+        return np.asfortranarray(arr)
+    if layout == "strided" and arr.ndim >= 1 and arr.shape[-1] >= 1:
+        big = np.empty(arr.shape[:-1] + (2 * arr.shape[-1],), dtype=arr.dtype)
+        big[..., 0::2] = arr
+        big[..., 1::2] = arr
+        return big[..., 0::2]
+    return arr
 
 
 class Scalar:
@@ -153,7 +166,7 @@ def _native_leaves(case, point, requires_grad=True):
     T = {}
     for l in case.leaves:
         arr = np.array([point[n] for n in var_names(l.name, l.shape)], dtype=np.float64).reshape(l.shape)
-        T[l.name] = Tensor(arr, requires_grad=(l.requires_grad and requires_grad))
+        T[l.name] = Tensor(lay(arr, l.layout), requires_grad=(l.requires_grad and requires_grad))
     K = {s.name: point[s.name] for s in case.scalars}
     return T, K
 
@@ -255,7 +268,7 @@ def _symbolic_paths(case, eps_mode):
             T = {}
             datas = {}
             for l in case.leaves:
-                arr = leafsyms[l.name].copy()
+                arr = lay(leafsyms[l.name].copy(), l.layout)
                 datas[l.name] = (arr, arr.copy())
                 T[l.name] = Tensor(arr, requires_grad=l.requires_grad)
             try:
